@@ -47,7 +47,10 @@ func kinesisReaderCase(c *lib.Ctx) {
 	arn := *d.StreamDescription.StreamARN
 	cfg := kinesis.SourceConfig{StreamARN: arn, Client: client, ShardDiscoveryInterval: time.Hour}
 	var steps []string
-	logf := func(f string, a ...any) { steps = append(steps, fmt.Sprintf(f, a...)); c.Logf("%s", steps[len(steps)-1]) }
+	logf := func(f string, a ...any) {
+		steps = append(steps, fmt.Sprintf(f, a...))
+		c.Logf("%s", steps[len(steps)-1])
+	}
 	wit := func(extra ...any) map[string]any {
 		w := map[string]any{"shards": shards, "steps": steps}
 		for i := 0; i+1 < len(extra); i += 2 {
